@@ -737,59 +737,175 @@ private theorem abrmNew_ne_panic (d : Dev) : (abrmNew L0 d).1 ≠ .panic := by
 
 private theorem sbrmNew_ne_panic (base : Nat) (d : Dev) : (sbrmNew L0 base d).1 ≠ .panic := by
   unfold sbrmNew
-  simp only [registerAddress]
-  split
-  · rcases read_cases d (base + L0.u3vCap.1) L0.u3vCap.2 with ⟨d', hr⟩ | ⟨d', hr⟩
+  by_cases h : base + L0.u3vCap.1 < 2 ^ 64
+  · simp only [registerAddress, h, if_true]
+    rcases read_cases d (base + L0.u3vCap.1) L0.u3vCap.2 with ⟨d', hr⟩ | ⟨d', hr⟩
     · rw [hr]; simp [parseNum_ok 8 _ (readBytes_length d.mem (base + L0.u3vCap.1) L0.u3vCap.2), R.map]
     · rw [hr]; simp
-  · simp
+  · simp only [registerAddress, h, if_false]
+    simp
 
-/-- outcome shapes of an unguarded / guarded u64 getter row -/
+private theorem u64_getReg_cases (rr : RRow) (hd : rr.dec = .u64) (hl : rr.len = 8) (base : Nat) (d : Dev) :
+    (∃ a d', getReg rr base d = (.ok (.nat a), d')) ∨ (∃ e d', getReg rr base d = (.err e, d')) := by
+  unfold getReg
+  rcases addrOf_cases rr.base base rr.off with ⟨a, ha⟩ | ha
+  · rw [ha]
+    simp only [readRegister]
+    rcases read_cases d a rr.len with ⟨d', hr⟩ | ⟨d', hr⟩
+    · rw [hr]
+      refine Or.inl ⟨fromLE (readBytes d.mem a rr.len), d', ?_⟩
+      simp [hd, parse, parseNum_ok 8 _ (by simp [hl] : (readBytes d.mem a rr.len).length = 8), R.map]
+    · rw [hr]; exact Or.inr ⟨_, _, rfl⟩
+  · rw [ha]; exact Or.inr ⟨_, _, rfl⟩
+
+/-- outcome shapes of an unguarded u64 getter row -/
 private theorem u64_get_cases (rr : RRow) (hk : rr.kind = .get) (hd : rr.dec = .u64) (hl : rr.len = 8)
-    (base cap : Nat) (d : Dev) :
-    (∃ d', rr.run base cap .none d = (.ok .none, d')) ∨
+    (hg : rr.guardBit = none) (base cap : Nat) (d : Dev) :
     (∃ a d', rr.run base cap .none d = (.ok (.nat a), d')) ∨
-    (∃ a d', rr.run base cap .none d = (.ok (.some (.nat a)), d')) ∨
     (∃ e d', rr.run base cap .none d = (.err e, d')) := by
-  have hget : (∃ a d', getReg rr base d = (.ok (.nat a), d')) ∨ (∃ e d', getReg rr base d = (.err e, d')) := by
-    unfold getReg
-    rcases addrOf_cases rr.base base rr.off with ⟨a, ha⟩ | ha
-    · rw [ha]
-      simp only [readRegister]
-      rcases read_cases d a rr.len with ⟨d', hr⟩ | ⟨d', hr⟩
-      · rw [hr]
-        refine Or.inl ⟨fromLE (readBytes d.mem a rr.len), d', ?_⟩
-        simp [hd, parse, parseNum_ok 8 _ (by simp [hl] : (readBytes d.mem a rr.len).length = 8), R.map]
-      · rw [hr]; exact Or.inr ⟨_, _, rfl⟩
-    · rw [ha]; exact Or.inr ⟨_, _, rfl⟩
   unfold RRow.run
   rw [hk]
-  cases hgb : rr.guardBit with
-  | none =>
-    rcases hget with ⟨a, d', h⟩ | ⟨e, d', h⟩
-    · exact Or.inr (Or.inl ⟨a, d', h⟩)
-    · exact Or.inr (Or.inr (Or.inr ⟨e, d', h⟩))
-  | some bit =>
-    by_cases hb : cap.testBit bit = true
-    · simp only [hb, if_true]
-      rcases hget with ⟨a, d', h⟩ | ⟨e, d', h⟩
-      · exact Or.inr (Or.inr (Or.inl ⟨a, d', by rw [h]; rfl⟩))
-      · exact Or.inr (Or.inr (Or.inr ⟨e, d', by rw [h]; rfl⟩))
-    · exact Or.inl ⟨d, by simp [hb]⟩
+  simp only [hg]
+  exact u64_getReg_cases rr hd hl base d
+
+/-- outcome shapes of a capability-guarded u64 getter row -/
+private theorem u64_get_guarded_cases (rr : RRow) (hk : rr.kind = .get) (hd : rr.dec = .u64) (hl : rr.len = 8)
+    (bit : Nat) (hg : rr.guardBit = some bit) (base cap : Nat) (d : Dev) :
+    (∃ d', rr.run base cap .none d = (.ok .none, d')) ∨
+    (∃ a d', rr.run base cap .none d = (.ok (.some (.nat a)), d')) ∨
+    (∃ e d', rr.run base cap .none d = (.err e, d')) := by
+  unfold RRow.run
+  rw [hk]
+  simp only [hg]
+  by_cases hb : cap.testBit bit = true
+  · simp only [hb, if_true]
+    rcases u64_getReg_cases rr hd hl base d with ⟨a, d', h⟩ | ⟨e, d', h⟩
+    · exact Or.inr (Or.inl ⟨a, d', by rw [h]; rfl⟩)
+    · exact Or.inr (Or.inr ⟨e, d', by rw [h]; rfl⟩)
+  · exact Or.inl ⟨d, by simp [hb]⟩
 
 private theorem abrmSbrm_ne_panic (cap : Nat) (d : Dev) : (abrmSbrm L0 cap d).1 ≠ .panic := by
   unfold abrmSbrm
-  have hc := u64_get_cases L0.sbrmAddress rfl rfl rfl 0 cap d
-  have hnone : L0.sbrmAddress.guardBit = none := rfl
-  rcases hc with ⟨d', h⟩ | ⟨a, d', h⟩ | ⟨a, d', h⟩ | ⟨e, d', h⟩
-  · -- impossible: unguarded row
-    exfalso
-    simp [RRow.run, L0] at h
+  rcases u64_get_cases L0.sbrmAddress rfl rfl rfl rfl 0 cap d with ⟨a, d', h⟩ | ⟨e, d', h⟩
   · rw [h]; exact sbrmNew_ne_panic a d'
-  · exfalso
-    simp only [RRow.run, L0] at h
-    cases hg : (getReg ⟨"Abrm.sbrm_address", .abrm, .get, 0x01D8, 8, .u64, none⟩ 0 d) with
-    | mk r d'' => rw [hg] at h; cases h
   · rw [h]; simp
+
+private theorem abrmManifestTable_ne_panic (cap : Nat) (d : Dev) : (abrmManifestTable L0 cap d).1 ≠ .panic := by
+  unfold abrmManifestTable
+  rcases u64_get_cases L0.manifestTableAddress rfl rfl rfl rfl 0 cap d with ⟨a, d', h⟩ | ⟨e, d', h⟩
+  · rw [h]; simp
+  · rw [h]; simp
+
+private theorem sbrmSirm_ne_panic (base cap : Nat) (d : Dev) : (sbrmSirm L0 base cap d).1 ≠ .panic := by
+  unfold sbrmSirm
+  rcases u64_get_guarded_cases L0.sirmAddress rfl rfl rfl 0 rfl base cap d with
+    ⟨d', h⟩ | ⟨a, d', h⟩ | ⟨e, d', h⟩
+  · rw [h]; simp
+  · rw [h]; simp
+  · rw [h]; simp
+
+private theorem tableEntries_ne_panic (base : Nat) (d : Dev) : (tableEntries base d).1 ≠ .panic := by
+  unfold tableEntries
+  by_cases h0 : base + 0 < 2 ^ 64
+  · simp only [registerAddress, h0, if_true]
+    rcases read_cases d (base + 0) 8 with ⟨d', hr⟩ | ⟨d', hr⟩
+    · rw [hr]
+      simp only [parseNum_ok 8 _ (readBytes_length d.mem (base + 0) 8)]
+      by_cases h8 : base + 8 < 2 ^ 64
+      · simp only [h8, if_true]
+        split <;> simp
+      · simp only [h8, if_false]
+        simp
+    · rw [hr]; simp
+  · simp only [registerAddress, h0, if_false]
+    simp
+
+/-- **malformed_total**: for EVERY accessor name the source has (uniform rows, hand-modelled
+decoders, constructors, navigation, `ManifestTable::entries`), every memory image, base
+address (anywhere in the address space, including where `base + offset` overflows),
+capability word, well-typed argument and device state (rejecting or not, any prior log):
+the accessor returns a value or an error — never a panic.  This holds identically in both
+build profiles (no profile-dependent operation is left after fixes da8583f and a9ca270;
+before them: `1 << exponent` with exponent ≥ 64 and `base + offset` overflow panicked in
+the dev profile and wrapped in release). -/
+theorem malformed_total (name : String) (base cap : Nat) (arg : Arg) (d : Dev) (out : R Val × Dev)
+    (h : runNamed name base cap arg d = some out) : out.1 ≠ .panic := by
+  unfold runNamed at h
+  split at h
+  · next rr hrow =>
+    split at h
+    · next hok =>
+      obtain ⟨r, _, f⟩ := rowOf_facts hrow
+      cases h
+      exact run_ne_panic r rr f base cap arg d hok
+    · cases h
+  · by_cases hc : (Gen.RegMap.handModelled.any (·.1 == name) && arg == .none) = true
+    · rw [if_pos hc, layout_spec] at h
+      simp only [Option.bind_some] at h
+      repeat' split at h
+      all_goals first
+        | (cases h; exact abrmNew_ne_panic d)
+        | (cases h; exact abrmSbrm_ne_panic cap d)
+        | (cases h; exact abrmManifestTable_ne_panic cap d)
+        | (cases h; exact sbrmNew_ne_panic base d)
+        | (cases h; exact sbrmSirm_ne_panic base cap d)
+        | (cases h; exact tableEntries_ne_panic base d)
+        | (cases h; simp)
+        | cases h
+    · rw [if_neg hc] at h
+      cases h
+
+/-- non-vacuity: `runNamed` is defined on all 63 accessor names of the source, e.g. the
+alignment decoder on an image whose SI info exponent is 200 answers `InvalidDevice` -/
+example : (runNamed "Sirm.payload_size_alignment" 0x1000 0 .none (fresh fun a => if a = 0x1003 then 200 else 0)).map (·.1)
+    = some (.err .invalidDevice) := by decide
+example : ((Gen.RegMap.accessors.map (·.name) ++ Gen.RegMap.handModelled.map (·.1)).all fun n =>
+    (runNamed n 0 0 .none (fresh fun _ => 0)).isSome ||
+    (runNamed n 0 0 (.nat 0) (fresh fun _ => 0)).isSome ||
+    (runNamed n 0 0 (.cfg 0) (fresh fun _ => 0)).isSome ||
+    (runNamed n 0 0 (.str []) (fresh fun _ => 0)).isSome) = true := by decide
+
+/-! ## 10. Capability tests and navigation -/
+
+/-- the guard of the accessors (`cap.testBit bit`) is the crate's `is_bit_set!(self.0, bit)`
+= `((val >> bit) & 1) == 1` -/
+theorem guard_is_bit_set (raw bit : Nat) : isBitSet raw bit = raw.testBit bit := by
+  simp only [isBitSet, Nat.testBit, Nat.and_comm (raw >>> bit) 1, Nat.one_and_eq_mod_two,
+    Bool.beq_eq_decide_eq]
+  have := Nat.mod_two_eq_zero_or_one (raw >>> bit)
+  rcases this with h | h <;> simp [h]
+
+/-- `Abrm::sbrm` navigates as the standards describe: the SBRM address `a` is the u64 at
+ABRM 0x01D8, then `Sbrm::new(a)` reads the U3VCP capability word at `a + 4`; exactly these
+two reads, in this order. -/
+theorem abrm_sbrm_navigates (mem : Nat → UInt8) (cap : Nat)
+    (h : fromLE (readBytes mem 0x01D8 8) + 4 + 8 ≤ 2 ^ 64) :
+    abrmSbrm L0 cap (fresh mem) =
+      (.ok (.sbrm (fromLE (readBytes mem 0x01D8 8)) (fromLE (readBytes mem (fromLE (readBytes mem 0x01D8 8) + 4) 8))),
+       ⟨mem, [⟨.R, 0x01D8, 8, some (readBytes mem 0x01D8 8)⟩,
+              ⟨.R, fromLE (readBytes mem 0x01D8 8) + 4, 8,
+                some (readBytes mem (fromLE (readBytes mem 0x01D8 8) + 4) 8)⟩], false⟩) := by
+  have h1 : fromLE (readBytes mem 0x01D8 8) + 4 < 2 ^ 64 := by omega
+  have h2 : ¬ 2 ^ 64 < fromLE (readBytes mem 0x01D8 8) + 4 + 8 := by omega
+  have e1 : L0.sbrmAddress.run 0 cap .none (fresh mem) =
+      (.ok (.nat (fromLE (readBytes mem 0x01D8 8))), ⟨mem, [⟨.R, 0x01D8, 8, some (readBytes mem 0x01D8 8)⟩], false⟩) := by
+    simp [RRow.run, L0, getReg, addrOf, readRegister, fresh, Dev.read, Dev.rejects, parse, parseNum_ok, R.map]
+  simp only [abrmSbrm, e1]
+  simp [sbrmNew, L0, registerAddress, h1, Dev.read, Dev.rejects, h2, parseNum_ok, R.map]
+
+/-- `Sbrm::sirm` is `None` without device access when the SIRM-available bit (U3VCP
+capability bit 0) is clear, and otherwise the u64 at `SBRM + 0x20` -/
+theorem sbrm_sirm_navigates (mem : Nat → UInt8) (base cap : Nat) (h : base + 0x20 + 8 ≤ 2 ^ 64) :
+    sbrmSirm L0 base cap (fresh mem) =
+      if cap.testBit 0 then
+        (.ok (.some (.sirm (fromLE (readBytes mem (base + 0x20) 8)))),
+         ⟨mem, [⟨.R, base + 0x20, 8, some (readBytes mem (base + 0x20) 8)⟩], false⟩)
+      else (.ok .none, fresh mem) := by
+  have h1 : base + 0x20 < 2 ^ 64 := by omega
+  have h2 : ¬ 2 ^ 64 < base + 0x20 + 8 := by omega
+  by_cases hb : cap.testBit 0 = true
+  · simp [sbrmSirm, RRow.run, L0, hb, getReg, addrOf, registerAddress, h1, readRegister, fresh, Dev.read,
+      Dev.rejects, h2, parse, parseNum_ok, R.map]
+  · simp [sbrmSirm, RRow.run, L0, hb, fresh]
 
 end CamVerif.C13
